@@ -105,3 +105,91 @@ def _(c):
     a = aes.AES(bytes(16)); st = sym_state(c); s0 = list(st.ival)
     c.call(aes.AES.ShiftRows, a, st)
     c.ensure('canary', val.eq(st.ival, A.inv_shift_rows(s0)))
+
+# =====================================================================  DES / TDEA
+from spec import des as D
+import crysp.des as des
+from props.des_common import *
+
+@obligation(P, 'crysp.des.S/post', cls='E', funcs=['crysp.des.S'], domain={}, note='all 8 x 64 S-box entries against FIPS 46-3 (row = bits 1,6; column = bits 2..5)')
+def _(c):
+    for n in range(8):
+        for x in range(64):
+            r = c.call(des.S, n, x)
+            c.ensure('S%d[%d]' % (n + 1, x), r.ival == D.SBOX[n][x] and r.size == 4)
+    for bad in ((8, 0), (-1, 0), (0, 64), (0, -1)):
+        o = c.outcome(des.S, *bad)
+        c.ensure('S%s rejected' % (bad,), o[0] == 'exc')
+
+PERMS = {'IP': (des.IP, D.IP_T, 64), 'IPinv': (des.IPinv, D.IPINV_T, 64), 'PC1': (des.PC1, D.PC1_T, 64), 'PC2': (des.PC2, D.PC2_T, 56),
+         'E': (des.E, D.E_T, 32), 'P': (des.P, D.P_T, 32)}
+@obligation(P, 'crysp.des.perm/post', cls='L', cases={'name': list(PERMS)}, funcs=['crysp.des.' + n for n in PERMS])
+def _(c):
+    f, T, n = PERMS[c.case('name')]
+    x = c.bits('x', n)
+    r = c.call(f, x)
+    c.ensure('bits', val.eq(r.ival, val.from_bits(D.perm(val.bits_of(x.ival, n), T))))
+    c.ensure('size', r.size == len(T))
+    if c.case('name') != 'PC1':
+        c.raises('wrong-size', Exception, f, c.bits('y', n + 1))
+
+@obligation(P, 'crysp.des.subkey/post', cls='L', cases={'r': list(range(16))}, funcs=['crysp.des.subkey'])
+def _(c):
+    r = c.case('r')
+    k = c.bits('k', 56)
+    sk = c.call(des.subkey, k, r)
+    c.ensure('roundkey', land(val.eq(sk.ival, val.from_bits(D.round_key(val.bits_of(k.ival, 56), r))), sk.size == 48))
+
+@obligation(P, 'crysp.des.F/post', cls='L', cases={'r': list(range(16))}, funcs=['crysp.des.F', 'crysp.des.subkey', 'crysp.des.E', 'crysp.des.P', 'crysp.des.S'], timeout=200)
+def _(c):
+    r = c.case('r')
+    R = c.bits('R', 32); k = c.bits('k', 56)
+    out = c.call(des.F, R, k, r)
+    exp = D.f_bits(val.bits_of(R.ival, 32), D.round_key(val.bits_of(k.ival, 56), r))
+    c.ensure('f', land(val.eq(out.ival, val.from_bits(exp)), out.size == 32))
+
+@obligation(P, 'crysp.des.DES.enc-dec/post', cls='L', opaque=DES_F, cases={'dir': ['enc', 'dec']}, funcs=['crysp.des.DES.enc', 'crysp.des.DES.dec', 'crysp.des.DES.__init__'])
+def _(c):
+    install_F_contract(c)
+    key = c.bytes('K', 8); blk = c.bytes('B', 8)
+    d = c.call(des.DES, key)
+    out = c.call(getattr(des.DES, c.case('dir')), d, blk)
+    f = D.encrypt_bits if c.case('dir') == 'enc' else D.decrypt_bits
+    exp = D.bits_to_bytes(f(D.bytes_to_bits(list(key)), D.bytes_to_bits(list(blk)), True))
+    c.ensure('block', val.eq(out, exp))
+    c.ensure('length', len(out) == 8)
+
+@obligation(P, 'crysp.des.DES/rejects', cls='B', bound='key and block lengths 0..20 bytes', funcs=['crysp.des.DES.__init__', 'crysp.des.DES.enc', 'crysp.des.DES.dec'],
+            cases={'n': [n for n in range(0, 21) if n != 8]})
+def _(c):
+    n = c.case('n')
+    c.raises('key-size', Exception, des.DES, c.bytes('K', n))
+    d = des.DES(bytes(8))
+    c.raises('enc-block', Exception, des.DES.enc, d, c.bytes('B', n))
+    c.raises('dec-block', Exception, des.DES.dec, d, c.bytes('C', n))
+
+TDEA_FORMS = ['1x8', '1x16', '1x24', 'k1', 'k1,k2', 'k1,k2,k3']
+@obligation(P, 'crysp.des.TDEA/post', cls='L', opaque=['des_enc', 'des_dec'], cases={'form': TDEA_FORMS, 'dir': ['enc', 'dec']},
+            funcs=['crysp.des.TDEA.__init__', 'crysp.des.TDEA.enc', 'crysp.des.TDEA.dec'])
+def _(c):
+    install_DES_contract(c)
+    form = c.case('form')
+    ks = [c.bytes('K%d' % i, 8) for i in (1, 2, 3)]
+    if form == '1x8': t = c.call(des.TDEA, ks[0]); k = (ks[0], ks[0], ks[0])
+    elif form == '1x16': t = c.call(des.TDEA, ks[0] + ks[1]); k = (ks[0], ks[1], ks[0])
+    elif form == '1x24': t = c.call(des.TDEA, ks[0] + ks[1] + ks[2]); k = tuple(ks)
+    elif form == 'k1': t = c.call(des.TDEA, ks[0]); k = (ks[0], ks[0], ks[0])
+    elif form == 'k1,k2': t = c.call(des.TDEA, ks[0], ks[1]); k = (ks[0], ks[1], ks[0])
+    else: t = c.call(des.TDEA, ks[0], ks[1], ks[2]); k = tuple(ks)
+    blk = c.bytes('B', 8)
+    out = c.call(getattr(des.TDEA, c.case('dir')), t, blk)
+    kk = [key_of_bytes(x) for x in k]; b = key_of_bytes(blk)
+    if c.case('dir') == 'enc': exp = D.ENC(kk[2], D.DEC(kk[1], D.ENC(kk[0], b)))
+    else: exp = D.DEC(kk[0], D.ENC(kk[1], D.DEC(kk[2], b)))
+    c.ensure('block', val.eq(out, D.bits_to_bytes(val.bits_of(exp, 64))))
+    c.ensure('length', len(out) == 8)
+
+@obligation(P, 'crysp.des.TDEA/rejects', cls='B', bound='single key string lengths 0..40 bytes', funcs=['crysp.des.TDEA.__init__'],
+            cases={'n': [n for n in range(0, 41) if n not in (8, 16, 24)]})
+def _(c):
+    c.raises('key-size', Exception, des.TDEA, c.bytes('K', c.case('n')))
